@@ -296,6 +296,7 @@ const (
 	kState
 	kSnapCommit
 	kSnapLast
+	kSnapStale
 	kRestoreLast
 	kRestorePrev
 	kRestoreAhead
@@ -315,7 +316,7 @@ const (
 var c09kindNames = [...]string{
 	kApp1: "append1", kApp3: "append3", kOwLast: "overwrite(last,n=1)", kOwLast2: "overwrite(last-2,n=2)",
 	kOwFirst: "overwrite(firstKept,n=1)", kState: "saveState", kSnapCommit: "SaveSnapshots(commit)",
-	kSnapLast: "SaveSnapshots(last)", kRestoreLast: "Update.Snapshot(last)", kRestorePrev: "Update.Snapshot(last-1)",
+	kSnapLast: "SaveSnapshots(last)", kSnapStale: "SaveSnapshots(newest-1: a stale record, must be ignored)", kRestoreLast: "Update.Snapshot(last)", kRestorePrev: "Update.Snapshot(last-1)",
 	kRestoreAhead: "Update.Snapshot(last+2)", kRemoveTo: "RemoveEntriesTo(snapshot)",
 	kRemoveToPrev: "RemoveEntriesTo(snapshot-1)", kRemoveNode: "RemoveNodeData", kImport: "ImportSnapshot",
 	kReopen: "close+reopen", kReopenWarm: "close+reopen+replayReads", kAppBoth: "append1(both pairs, one SaveRaftState)",
@@ -412,6 +413,9 @@ func (m *c09model) enabledKind(k c09kind, rep int, thorough bool) bool {
 		return c > r.snap.index && c > r.floor && c <= last
 	case kSnapLast:
 		return last > r.snap.index && last > r.floor && last != r.commit()
+	case kSnapStale:
+		// an entry below the newest recorded snapshot still exists in the model (its term is known)
+		return r.snap.index >= 2 && r.snap.index-1 > r.floor && r.snap.index-1 <= last
 	case kRestoreLast:
 		return len(r.ents) >= 1 && last > r.snap.index && last > r.commit()
 	case kRestorePrev:
@@ -436,7 +440,7 @@ func (m *c09model) enabledKind(k c09kind, rep int, thorough bool) bool {
 	return false
 }
 
-var c09order = []c09kind{kApp1, kApp3, kState, kReopen, kOwLast, kOwLast2, kOwFirst, kSnapCommit, kSnapLast,
+var c09order = []c09kind{kApp1, kApp3, kState, kReopen, kOwLast, kOwLast2, kOwFirst, kSnapCommit, kSnapLast, kSnapStale,
 	kRemoveTo, kSnapCompact, kRemoveNode, kRestoreLast, kRestoreAhead, kImport, kAppBoth, kRestorePrev, kRemoveToPrev, kReopenWarm}
 
 // enabled lists the enabled operations, simplest first.
@@ -617,6 +621,12 @@ func (m *c09model) apply(code uint8) c09action {
 		r.state = pb.State{Term: r.cur, Vote: r.vote, Commit: last}
 		ud.State = r.state
 		a.updates = []pb.Update{ud}
+	case kSnapStale:
+		// the newest record stays: only the call is made
+		m.seq++
+		st := c09snap{index: r.snap.index - 1, term: r.ent(r.snap.index - 1).term, tag: m.seq}
+		ud.Snapshot = c09mkSnapshot(rep, st)
+		a.updates = []pb.Update{ud}
 	case kSnapCommit, kSnapLast, kSnapCompact:
 		idx := r.commit()
 		if k == kSnapLast {
@@ -710,7 +720,7 @@ func (s *c09sut) exec(a c09action) (err error) {
 		}
 		s.quiesce()
 		return s.db.RemoveEntriesTo(p.shard, p.replica, a.index)
-	case kSnapCommit, kSnapLast:
+	case kSnapCommit, kSnapLast, kSnapStale:
 		return s.db.SaveSnapshots(a.updates)
 	case kRemoveTo, kRemoveToPrev:
 		return s.db.RemoveEntriesTo(p.shard, p.replica, a.index)
